@@ -4,7 +4,7 @@ import apigen, vlib
 from genlib import *
 LEVEL = "proof"
 LEAN_MODULES = ["MpirProofs.Props.C04"]
-THEOREMS = []
+THEOREMS = ["Mpir.Life.inv_init", "Mpir.Life.inv_step", "Mpir.Life.inv_run", "Mpir.Life.no_breach", "Mpir.Life.clearAll_empties_ledger", "Mpir.Life.realloc2_value", "Mpir.Life.set_value"]
 TRUSTED = ["run-time monitors on the C side: recording allocator (exact old size on realloc/free, red zones, leak ledger), well-formedness check of every pool object after every call, ASan+UBSan build",
            "life-cycle/ledger model lean/Mpir/Model/Life.lean mirrors mpz/init.c, init2.c, realloc.c, realloc2.c, set.c, clear.c (tied by correspondence on value and _mp_alloc)"]
 ASSUMPTIONS = ["memory safety of code below the object abstraction is bounded sanitizer exploration over generated histories, not proof",
